@@ -70,7 +70,10 @@ func (p *Parser) parseNext() error {
 	// Check for potential operator (starts with a letter, or is one of the
 	// text-showing operators ' and ")
 	if isLetter(c) || c == '\'' || c == '"' {
-		return p.parseOperator()
+		// true, false and null are operands (boolean and null objects), not operators
+		if !p.atKeywordOperand() {
+			return p.parseOperator()
+		}
 	}
 
 	// Otherwise, parse as operand
@@ -81,6 +84,20 @@ func (p *Parser) parseNext() error {
 
 	p.operandStack = append(p.operandStack, operand)
 	return nil
+}
+
+// atKeywordOperand reports whether the token at the current position is one of
+// the keywords true, false or null.
+func (p *Parser) atKeywordOperand() bool {
+	end := p.pos
+	for end < len(p.data) && !isWhitespace(p.data[end]) && !isDelimiter(p.data[end]) {
+		end++
+	}
+	switch string(p.data[p.pos:end]) {
+	case "true", "false", "null":
+		return true
+	}
+	return false
 }
 
 // parseOperator parses an operator and creates an operation with the current
